@@ -78,6 +78,24 @@ CLAIMS = {
         "text": "Decides: the pairing call gets the new report in the slot of its parity plus the stored other slot; every rejecting path ends with the empty record; rejection/publication are guarded by `haversine(receiver, candidate) > max_range` and `> 100.0` from the previous position; the published distance's normal form is the haversine formula with R = 6371. Numeric accuracy / threshold behaviour of f64 are not decided; the history-level claim follows by induction (not mechanised).",
         "note": TRUST,
     },
+    "C14": {
+        "engine": "ai", "technique": "abstract interpretation of Airplanes::action / aircraft_details / all_position against tagged symbolic records; enumeration of record shapes for the views",
+        "design_ref": "DESIGN.md §4 C14",
+        "text": "Decides per frame kind which of callsign/heading/speed/vertical rate are overwritten and with which of the frame's own values (others untouched); that position and distance are written together; that the element appended to the track is the old record; and, over all 24 Some/None shapes of a record, that aircraft_details is Some exactly for position+altitude+distance and copies the record's own values, and all_position lists exactly the records with a position. History-level ordering follows by induction (not mechanised).",
+        "note": TRUST,
+    },
+    "C15": {
+        "engine": "ai", "technique": "abstract interpretation of prune's retain closure (decision table + comparison operands) and of the last_time refresh in action",
+        "design_ref": "DESIGN.md §4 C15",
+        "text": "Decides ONLY the structural skeleton of expiry: the retain decision table over {clock error, elapsed < T, elapsed >= T}, the operands (last_time.elapsed() vs Duration::from_secs(filter_time), operator <), and that every DF17/DF18 frame sets last_time = SystemTime::now() on all paths. Everything involving real elapsed time is NOT decided.",
+        "note": TRUST,
+    },
+    "C19": {
+        "engine": "ai", "technique": "typestate table of the caching reader wrapper from abstract interpretation of its Read/Seek impls; abstract decoding over scripted read schedules; static inventory",
+        "design_ref": "DESIGN.md §4 C19",
+        "text": "Decides the wrapper's transitions (cache and re-read flag) on success and on Err for both flag states, that all identifier re-reads are single-byte, that under scripted schedules (one byte per read; Interrupted before every read) every grammar path yields the same checksum forms and field provenance as slice decoding, and that the decoder has no global mutable state. Equality for ALL schedules follows from these by argument, not enumeration.",
+        "note": TRUST,
+    },
     "C03": {
         "engine": "ai",
         "technique": "const-evaluated table comparison + GF(2) bit-provenance abstract interpretation of the checksum loop",
